@@ -8,7 +8,9 @@ import (
 
 	"github.com/meshplus/bitxhub-kit/crypto"
 	"github.com/meshplus/bitxhub-kit/types"
+	"github.com/meshplus/bitxhub-model/constant"
 	"github.com/meshplus/bitxhub-model/pb"
+	"github.com/meshplus/bitxhub/internal/executor/contracts"
 	"github.com/meshplus/bitxhub/internal/executor/oracle/appchain"
 	"github.com/meshplus/bitxhub/internal/ledger"
 	"github.com/meshplus/bitxhub/internal/repo"
@@ -79,6 +81,9 @@ func zzHash(n int) *types.Hash {
 		"0x1111111111111111111111111111111111111111111111111111111111111111",
 		"0x2222222222222222222222222222222222222222222222222222222222222222",
 		"0x3333333333333333333333333333333333333333333333333333333333333333",
+		"0x4444444444444444444444444444444444444444444444444444444444444444",
+		"0x5555555555555555555555555555555555555555555555555555555555555555",
+		"0x6666666666666666666666666666666666666666666666666666666666666666",
 	}[n])
 }
 
@@ -89,4 +94,15 @@ func zzSetBalance(exec *BlockExecutor, a string, name string) *big.Int {
 	zz.Assume(zz.BigLe(big.NewInt(0), b))
 	exec.ledger.SetBalance(zzAddr(a), b)
 	return b
+}
+
+// zzRecordOf reads the transaction record of a one-to-one cross-chain transaction.
+func zzRecordOf(exec *BlockExecutor, id string) (pb.TransactionRecord, bool) {
+	var r pb.TransactionRecord
+	ok, v := exec.ledger.GetState(constant.TransactionMgrContractAddr.Address(), []byte(contracts.TxInfoKey(id)))
+	if !ok {
+		return r, false
+	}
+	err := r.Unmarshal(v)
+	return r, err == nil
 }
